@@ -221,17 +221,30 @@ Proof.
   destruct (extract t) as [[[b s] a]|]; [reflexivity|]. destruct t; reflexivity.
 Qed.
 
-Definition line_sep (ls : str) : Prop := ls = [LF] \/ ls = [CR; LF].
+(* the line separators: LF, CRLF, and CR alone (then the following text must not begin with LF) *)
+Definition line_sep (ls : str) : Prop := ls = [LF] \/ ls = [CR; LF] \/ ls = [CR].
 
-Lemma split_lines_sep ls rest : line_sep ls -> split_lines (ls ++ rest) = [] :: split_lines rest.
-Proof. intros [->| ->]; [apply split_lines_lf|apply split_lines_crlf]. Qed.
+Definition no_lf_head (s : str) : bool := negb (starts_with [LF] s).
+
+Lemma no_lf_head_cons c s : no_lf_head (c :: s) = negb (N.eqb LF c).
+Proof. unfold no_lf_head. cbn [starts_with]. rewrite andb_true_r. reflexivity. Qed.
+
+Lemma no_lf_head_app a b : a <> [] -> no_lf_head (a ++ b) = no_lf_head a.
+Proof. destruct a as [|c a]; [congruence|]. intros _. cbn [app]. rewrite !no_lf_head_cons. reflexivity. Qed.
+
+Lemma split_lines_sep ls rest : line_sep ls -> (ls = [CR] -> no_lf_head rest = true) -> split_lines (ls ++ rest) = [] :: split_lines rest.
+Proof.
+  intros [->|[->| ->]] Hr; [apply split_lines_lf|apply split_lines_crlf|]. specialize (Hr eq_refl).
+  destruct rest as [|d rest]; [reflexivity|]. rewrite no_lf_head_cons in Hr. apply negb_true_iff in Hr.
+  cbn [app]. apply split_lines_cr. apply N.eqb_neq. rewrite N.eqb_sym. exact Hr.
+Qed.
 
 (* a written line that does not end with CR, followed by the separator: its pieces, then the rest *)
-Lemma split_lines_cut ls rest : line_sep ls -> forall W, ecr W = false ->
+Lemma split_lines_cut ls rest : line_sep ls -> (ls = [CR] -> no_lf_head rest = true) -> forall W, ecr W = false ->
   split_lines (W ++ ls ++ rest) = cut W ++ split_lines rest.
 Proof.
-  intros Hls W. induction W as [| t IH | | t IH | d t Hd IH | c t Hc IH] using nl_ind; intros He.
-  - exact (split_lines_sep ls rest Hls).
+  intros Hls Hrest W. induction W as [| t IH | | t IH | d t Hd IH | c t Hc IH] using nl_ind; intros He.
+  - exact (split_lines_sep ls rest Hls Hrest).
   - cbn [app]. rewrite split_lines_lf, cut_lf, IH by (apply (ecr_tail _ _ He)). reflexivity.
   - discriminate.
   - cbn [app]. rewrite split_lines_crlf, cut_crlf, IH by (apply (ecr_tail _ _ (ecr_tail _ _ He))). reflexivity.
@@ -248,11 +261,28 @@ Definition emit (ls : str) (lines : list str) : str := concat (map (fun l => l +
 Lemma emit_cons ls l r : emit ls (l :: r) = l ++ ls ++ emit ls r.
 Proof. unfold emit. cbn [map concat]. rewrite <- app_assoc. reflexivity. Qed.
 
-Theorem lines_of_written_gen ls lines : line_sep ls -> Forall (fun l => ecr l = false) lines ->
+
+(* a written line is "clean": it does not end with CR and does not begin with LF *)
+Definition clean_line (l : str) : Prop := ecr l = false /\ no_lf_head l = true.
+
+Lemma emit_no_lf_head lines : Forall clean_line lines -> no_lf_head (emit [CR] lines) = true.
+Proof.
+  intros H. destruct H as [|l r [_ Hl] Hr]; [reflexivity|]. rewrite emit_cons. destruct l as [|c l]; [reflexivity|].
+  rewrite no_lf_head_app by discriminate. exact Hl.
+Qed.
+
+Theorem lines_of_written_gen ls lines : line_sep ls -> Forall clean_line lines ->
   split_lines (emit ls lines) = concat (map cut lines).
 Proof.
   intros Hls H. induction H as [|l r Hl Hr IH]; [reflexivity|].
-  rewrite emit_cons, (split_lines_cut ls _ Hls l Hl), IH. reflexivity.
+  rewrite emit_cons, (split_lines_cut ls _ Hls (fun E => eq_ind_r (fun x => no_lf_head (emit x r) = true) (emit_no_lf_head r Hr) E) l (proj1 Hl)), IH. reflexivity.
+Qed.
+
+Lemma plain_clean l : hasnl l = false -> clean_line l.
+Proof.
+  intros H. split; [apply ecr_plain; exact H|]. destruct l as [|c l]; [reflexivity|]. rewrite no_lf_head_cons.
+  rewrite hasnl_cons in H. apply orb_false_iff in H. destruct H as [H _]. apply isnl_false in H. destruct H as [H _].
+  apply negb_true_iff. apply N.eqb_neq. congruence.
 Qed.
 
 Theorem lines_of_written ls lines : line_sep ls -> Forall (fun l => hasnl l = false) lines ->
@@ -260,7 +290,7 @@ Theorem lines_of_written ls lines : line_sep ls -> Forall (fun l => hasnl l = fa
 Proof.
   intros Hls H. rewrite (lines_of_written_gen ls lines Hls).
   - induction H as [|l r Hl Hr IH]; [reflexivity|]. cbn [map concat]. rewrite (cut_plain _ Hl), IH. reflexivity.
-  - eapply Forall_impl; [|exact H]. intros l Hl. apply ecr_plain. exact Hl.
+  - eapply Forall_impl; [|exact H]. intros l Hl. apply plain_clean. exact Hl.
 Qed.
 
 (* ------------------------------------------------------------------ the quote-parity invariant of a quoted_rfc line *)
@@ -313,6 +343,12 @@ Proof.
     rewrite nlq_nl in H by reflexivity. cbn [nlq] in H. destruct o; discriminate.
   - rewrite ecr_cons2. cbn [nlq] in H. destruct (N.eqb c QT); [exact (IH _ H)|]. destruct (isnl c); [|exact (IH _ H)].
     apply andb_true_iff in H. destruct H as [_ H]. exact (IH _ H).
+Qed.
+
+Lemma nlq_clean s : nlq false s = true -> clean_line s.
+Proof.
+  intros H. split; [exact (nlq_ecr s false H)|]. destruct s as [|c s]; [reflexivity|]. rewrite no_lf_head_cons.
+  destruct (N.eqb LF c) eqn:E; [|reflexivity]. apply N.eqb_eq in E. subst c. rewrite nlq_nl in H by reflexivity. discriminate.
 Qed.
 
 (* parities of the pieces: [o] = the record under assembly has an odd number of quotes so far *)
@@ -415,3 +451,7 @@ Qed.
 
 Lemma number_from_plain lines : forall nl, map fst (number_from nl lines) = lines.
 Proof. intros nl. apply map_fst_number_from. Qed.
+
+Print Assumptions lines_of_written_gen.
+Print Assumptions lines_of_written.
+Print Assumptions group_rfc_written.
